@@ -29,29 +29,24 @@ def _decode_escape_sequence(  # noqa: PLR0911
     except IndexError as err:
         raise PestGrammarSyntaxError("incomplete escape sequence", token=token) from err
 
-    # TODO: match these to Rust?
-    if ch == quote:
-        return quote, index
-    if ch == "\\":
-        return "\\", index
-    if ch == "/":
-        return "/", index
-    if ch == "b":
-        return "\x08", index
-    if ch == "f":
-        return "\x0c", index
+    if ch in ('"', "'", "\\"):
+        return ch, index
     if ch == "n":
         return "\n", index
     if ch == "r":
         return "\r", index
     if ch == "t":
         return "\t", index
+    if ch == "0":
+        return "\0", index
     if ch == "x":
-        # TODO: handle incomplete \x escape sequence
-        return chr(int(value[index + 1 : index + 3], 16)), index + 3
+        digits = value[index + 1 : index + 3]
+        if len(digits) != 2:  # noqa: PLR2004
+            raise PestGrammarSyntaxError("expected \\xHH", token=token)
+        return chr(_parse_hex_digits(digits, token)), index + 2
     if ch == "u":
         codepoint, index = _decode_hex_char(value, index, token)
-        return chr(codepoint), index
+        return _chr(codepoint, token), index
 
     raise PestGrammarSyntaxError(
         f"unknown escape sequence at index {token.start + index - 1}",
@@ -59,13 +54,20 @@ def _decode_escape_sequence(  # noqa: PLR0911
     )
 
 
+def _chr(codepoint: int, token: Token) -> str:
+    if codepoint > 0x10FFFF or 0xD800 <= codepoint <= 0xDFFF:  # noqa: PLR2004
+        raise PestGrammarSyntaxError(
+            f"\\u{{{codepoint:X}}} is not a Unicode scalar value", token=token
+        )
+    return chr(codepoint)
+
+
 def _decode_hex_char(value: str, index: int, token: Token) -> tuple[int, int]:
-    # TODO: use a regular expression?
     index += 1  # move past 'u'
 
-    if value[index] != "{":
+    if value[index : index + 1] != "{":
         raise PestGrammarSyntaxError(
-            f"expected an opening brace, found {value[index]}",
+            f"expected an opening brace, found {value[index : index + 1]!r}",
             token=token,
         )
 
@@ -76,14 +78,13 @@ def _decode_hex_char(value: str, index: int, token: Token) -> tuple[int, int]:
         raise PestGrammarSyntaxError("unclosed Unicode escape sequence", token=token)
 
     hex_digit_length = closing_brace_index - index
-    if hex_digit_length not in (2, 4, 6):
+    if not 2 <= hex_digit_length <= 6:  # noqa: PLR2004
         raise PestGrammarSyntaxError(
-            "expected \\u{00}, \\u{0000} or \\u{000000}", token=token
+            "expected two to six hexadecimal digits in \\u{...}", token=token
         )
 
     codepoint = _parse_hex_digits(value[index : index + hex_digit_length], token)
-    index += hex_digit_length
-    index += 1  # move past '}'
+    index += hex_digit_length  # now at '}'
     return codepoint, index
 
 
